@@ -33,6 +33,9 @@ type c05eCase struct {
 	Decimate int     `json:"decimate"` // 0: off, else level
 	NRec     int     `json:"nrec"`
 	Seed     int     `json:"seed"`
+	// Src: "" a scripted AnySource with generated geometry and identity; "triangle" / "simpulse": the real simulated source,
+	// configured and prepared as Start does (its own geometry, names and sub-frame parameters)
+	Src string `json:"src,omitempty"`
 }
 
 func c05eGen(t *rapid.T) c05eCase {
@@ -49,6 +52,10 @@ func c05eGen(t *rapid.T) c05eCase {
 	c.Cols = (c.Nchan + c.Rows - 1) / c.Rows
 	for i := 0; i < c.Nchan; i++ {
 		c.Proj = append(c.Proj, rapid.Bool().Draw(t, "proj"))
+	}
+	c.Src = rapid.SampledFrom([]string{"", "", "triangle", "simpulse"}).Draw(t, "src")
+	if c.Src != "" {
+		c.Decimate = 0
 	}
 	return c
 }
@@ -71,21 +78,49 @@ func c05eRun(c c05eCase) (v vVerdict) {
 	defer os.RemoveAll(root)
 
 	vDrainRecords()
-	holder := newScripted(c.Nchan, time.Millisecond, 48)
-	ds := &holder.AnySource
-	ds.name = "verifE"
-	ds.sampleRate = c.Rate
-	ds.samplePeriod = time.Duration(math.Round(1e9 / c.Rate)) // as the real sources keep it: whole nanoseconds
-	ds.subframeDivisions = c.SubDiv
-	if err := ds.PrepareChannels(); err != nil {
-		return vFailf("prepare", "%v", err)
-	}
-	ds.rowColCodes = make([]RowColCode, c.Nchan)
-	for i := 0; i < c.Nchan; i++ {
-		ds.rowColCodes[i] = rcCode(i%c.Rows, i/c.Rows, c.Rows, c.Cols)
-		ds.chanNumbers[i] = 10 + 3*i
-		ds.chanNames[i] = fmt.Sprintf("ch%d", 10+3*i)
-		ds.subframeOffsets[i] = (i * 5) % c.SubDiv
+	var ds *AnySource
+	switch c.Src {
+	case "triangle":
+		ts := NewTriangleSource()
+		if err := ts.Configure(&TriangleSourceConfig{Nchan: c.Nchan, SampleRate: c.Rate, Min: 100, Max: 200}); err != nil {
+			return vFailf("prepare", "TriangleSource.Configure: %v", err)
+		}
+		if err := ts.Sample(); err != nil {
+			return vFailf("prepare", "%v", err)
+		}
+		if err := ts.PrepareChannels(); err != nil {
+			return vFailf("prepare", "%v", err)
+		}
+		ds = &ts.AnySource
+	case "simpulse":
+		sp := NewSimPulseSource()
+		if err := sp.Configure(&SimPulseSourceConfig{Nchan: c.Nchan, SampleRate: c.Rate, Pedestal: 1000, Amplitudes: []float64{3000}, Nsamp: 150}); err != nil {
+			return vFailf("prepare", "SimPulseSource.Configure: %v", err)
+		}
+		if err := sp.Sample(); err != nil {
+			return vFailf("prepare", "%v", err)
+		}
+		if err := sp.PrepareChannels(); err != nil {
+			return vFailf("prepare", "%v", err)
+		}
+		ds = &sp.AnySource
+	default:
+		holder := newScripted(c.Nchan, time.Millisecond, 48)
+		ds = &holder.AnySource
+		ds.name = "verifE"
+		ds.sampleRate = c.Rate
+		ds.samplePeriod = time.Duration(math.Round(1e9 / c.Rate)) // as the real sources keep it: whole nanoseconds
+		ds.subframeDivisions = c.SubDiv
+		if err := ds.PrepareChannels(); err != nil {
+			return vFailf("prepare", "%v", err)
+		}
+		ds.rowColCodes = make([]RowColCode, c.Nchan)
+		for i := 0; i < c.Nchan; i++ {
+			ds.rowColCodes[i] = rcCode(i%c.Rows, i/c.Rows, c.Rows, c.Cols)
+			ds.chanNumbers[i] = 10 + 3*i
+			ds.chanNames[i] = fmt.Sprintf("ch%d", 10+3*i)
+			ds.subframeOffsets[i] = (i * 5) % c.SubDiv
+		}
 	}
 	viper.Reset()
 	if err := ds.PrepareRun(c.Npre, c.Nsamp); err != nil {
@@ -96,6 +131,18 @@ func c05eRun(c c05eCase) (v vVerdict) {
 		ds.writingState.externalTriggerTicker.Stop()
 		ds.writingState.dataDropTicker.Stop()
 	}()
+	if c.Src != "" {
+		// doc/LJH.md: the sub-frame counter runs at "subframe divisions" counts per frame - the number of rows for TDM, "some
+		// arbitrary multiplier like 64" for the other sources - and a record's count is frame*divisions + the channel's offset
+		if ds.subframeDivisions < 1 {
+			return vFailf("subframe-divisions", "the %s source runs with %d sub-frame divisions per frame: every LJH 2.2 record would carry sub-frame count 0 and lose its frame number", c.Src, ds.subframeDivisions)
+		}
+		for i, off := range ds.subframeOffsets {
+			if off < 0 || off >= ds.subframeDivisions {
+				return vFailf("subframe-divisions", "channel %d of the %s source has sub-frame offset %d with %d divisions per frame", i, c.Src, off, ds.subframeDivisions)
+			}
+		}
+	}
 	projFlat := make([]float64, 2*c.Nsamp)
 	basisFlat := make([]float64, 2*c.Nsamp)
 	anyProj := false
@@ -160,6 +207,12 @@ func c05eRun(c c05eCase) (v vVerdict) {
 		p := c05Params{ChanIndex: ch, ChanNumber: 10 + 3*ch, ChanName: fmt.Sprintf("ch%d", 10+3*ch), Source: "verifE", Npre: c.Npre, Nsamp: c.Nsamp, FPS: fps,
 			Timebase: 1.0 / c.Rate, OffsetNs: DastardStartTime.UnixNano(), Rows: c.Rows, Cols: c.Cols, Chans: c.Nchan, SubDiv: c.SubDiv,
 			Row: ch % c.Rows, Col: ch / c.Rows, SubOff: (ch * 5) % c.SubDiv, NBases: 2, Proj: projFlat, Basis: basisFlat, Description: "verif model E"}
+		if c.Src != "" { // identity and geometry as the source announces them (C19 judges those tables); time base, lengths, records as generated
+			rc := ds.rowColCodes[ch]
+			p.ChanNumber, p.ChanName, p.Source = ds.chanNumbers[ch], ds.chanNames[ch], ds.name
+			p.Rows, p.Cols, p.Row, p.Col = rc.rows(), rc.cols(), rc.row(), rc.col()
+			p.SubDiv, p.SubOff = ds.subframeDivisions, ds.subframeOffsets[ch]
+		}
 		name := ds.processors[ch].Name
 		type fc struct {
 			on  bool
@@ -194,6 +247,9 @@ func c05eRun(c c05eCase) (v vVerdict) {
 	}
 	if c.Types&4 != 0 && anyProj {
 		v.Classes = append(v.Classes, "off")
+	}
+	if c.Src != "" {
+		v.Classes = append(v.Classes, "real-"+c.Src+"-source")
 	}
 	return v
 }
